@@ -1113,6 +1113,8 @@ def pattern_ldr32_reg(context, tree, c0):
 @isa.pattern("reg", "NEGI8(reg)", size=2)
 @isa.pattern("reg", "NEGI16(reg)", size=2)
 @isa.pattern("reg", "NEGI32(reg)", size=2)
+@isa.pattern("reg", "NEGU8(reg)", size=2)
+@isa.pattern("reg", "NEGU16(reg)", size=2)
 @isa.pattern("reg", "NEGU32(reg)", size=2)
 def pattern_negi32(context, tree, c0):
     d = context.new_reg(RiscvRegister)
@@ -1122,6 +1124,8 @@ def pattern_negi32(context, tree, c0):
 
 @isa.pattern("reg", "INVI8(reg)", size=2)
 @isa.pattern("reg", "INVU8(reg)", size=2)
+@isa.pattern("reg", "INVI16(reg)", size=2)
+@isa.pattern("reg", "INVU16(reg)", size=2)
 @isa.pattern("reg", "INVU32(reg)", size=2)
 @isa.pattern("reg", "INVI32(reg)", size=2)
 def pattern_inv(context, tree, c0):
@@ -1307,6 +1311,7 @@ def pattern_shl_i32_reg_const(context, tree, c0):
 
 @isa.pattern("reg", "MULI8(reg, reg)", size=10)
 @isa.pattern("reg", "MULU8(reg, reg)", size=10)
+@isa.pattern("reg", "MULI16(reg, reg)", size=10)
 @isa.pattern("reg", "MULU16(reg, reg)", size=10)
 @isa.pattern("reg", "MULI32(reg, reg)", size=10)
 @isa.pattern("reg", "MULU32(reg, reg)", size=10)
@@ -1325,13 +1330,20 @@ def pattern_ldr_i32_add(context, tree, c0):
     return d
 
 
+@isa.pattern("reg", "DIVI8(reg, reg)", size=10)
+@isa.pattern("reg", "DIVI16(reg, reg)", size=10)
 @isa.pattern("reg", "DIVI32(reg, reg)", size=10)
 def pattern_div_i32(context, tree, c0, c1):
     d = context.new_reg(RiscvRegister)
+    bits = {"DIVI8": 8, "DIVI16": 16}.get(tree.name)
+    if bits:
+        c0 = extend_to_32(context, c0, bits, True)
+        c1 = extend_to_32(context, c1, bits, True)
     context.emit(Div(d, c0, c1))
     return d
 
 
+@isa.pattern("reg", "DIVU8(reg, reg)", size=10)
 @isa.pattern("reg", "DIVU16(reg, reg)", size=10)
 @isa.pattern("reg", "DIVU32(reg, reg)", size=10)
 def pattern_div_u32(context, tree, c0, c1):
@@ -1344,13 +1356,20 @@ def pattern_div_u32(context, tree, c0, c1):
     return d
 
 
+@isa.pattern("reg", "REMI8(reg, reg)", size=10)
+@isa.pattern("reg", "REMI16(reg, reg)", size=10)
 @isa.pattern("reg", "REMI32(reg, reg)", size=10)
 def pattern_rem_i32(context, tree, c0, c1):
     d = context.new_reg(RiscvRegister)
+    bits = {"REMI8": 8, "REMI16": 16}.get(tree.name)
+    if bits:
+        c0 = extend_to_32(context, c0, bits, True)
+        c1 = extend_to_32(context, c1, bits, True)
     context.emit(Rem(d, c0, c1))
     return d
 
 
+@isa.pattern("reg", "REMU8(reg, reg)", size=10)
 @isa.pattern("reg", "REMU16(reg, reg)", size=10)
 @isa.pattern("reg", "REMU32(reg, reg)", size=10)
 def pattern_rem_u32(context, tree, c0, c1):
